@@ -933,12 +933,25 @@ fn nontrivial_c18(c: &Case, r: &RunResult) -> bool {
     c.meta.role() == "hidden" && r.outcome.is_ok()
 }
 
+/// C17/C19/C20 observable: the colours of every token (plus the outcome kind).
+fn proj_colours(o: &Outcome) -> Outcome {
+    match o {
+        Outcome::Lines(_) => {
+            let m = token_colours(o);
+            let mut v: Vec<String> = m.iter().map(|(k, (f, b))| format!("{}:{:?}:{:?}", k, f, b)).collect();
+            v.sort();
+            Outcome::Str(v.join(";"))
+        }
+        other => other.clone(),
+    }
+}
+
 pub fn prop_def4(id: &str) -> Option<PropDef> {
     match id {
         "C17" => Some(PropDef { id: "C17", generate: gen_c17, check: check_c17, nontrivial: nontrivial_c17, project: ident, deadline_ms: 20000, check_model: None }),
         "C18" => Some(PropDef { id: "C18", generate: gen_c18, check: check_c18, nontrivial: nontrivial_c18, project: ident, deadline_ms: 20000, check_model: None }),
-        "C19" => Some(PropDef { id: "C19", generate: gen_c19, check: check_c19, nontrivial: nontrivial_c19, project: ident, deadline_ms: 20000, check_model: None }),
-        "C20" => Some(PropDef { id: "C20", generate: gen_c20, check: check_c20, nontrivial: nontrivial_c20, project: ident, deadline_ms: 20000, check_model: None }),
+        "C19" => Some(PropDef { id: "C19", generate: gen_c19, check: check_c19, nontrivial: nontrivial_c19, project: proj_colours, deadline_ms: 20000, check_model: None }),
+        "C20" => Some(PropDef { id: "C20", generate: gen_c20, check: check_c20, nontrivial: nontrivial_c20, project: proj_colours, deadline_ms: 20000, check_model: None }),
         other => crate::props5::prop_def5(other),
     }
 }
